@@ -1091,6 +1091,12 @@ impl Typer {
             } => {
                 let ty = self.subst_ty(diagnostics, &ty);
                 let expr = Box::new(self.subst(diagnostics, *expr));
+                if matches!(resolution, tast::UnaryResolution::Builtin)
+                    && matches!(op, common_defs::UnaryOp::Neg)
+                    && !operand_allowed(&expr.get_ty(), OperandClass::Numeric)
+                {
+                    push_operand_error(diagnostics, "-", &expr.get_ty());
+                }
                 tast::Expr::EUnary {
                     op,
                     expr,
@@ -1108,6 +1114,24 @@ impl Typer {
                 let ty = self.subst_ty(diagnostics, &ty);
                 let lhs = Box::new(self.subst(diagnostics, *lhs));
                 let rhs = Box::new(self.subst(diagnostics, *rhs));
+                if matches!(resolution, tast::BinaryResolution::Builtin) {
+                    let class = match op {
+                        common_defs::BinaryOp::Add => Some(OperandClass::NumericOrString),
+                        common_defs::BinaryOp::Sub
+                        | common_defs::BinaryOp::Mul
+                        | common_defs::BinaryOp::Div => Some(OperandClass::Numeric),
+                        common_defs::BinaryOp::Less
+                        | common_defs::BinaryOp::Greater
+                        | common_defs::BinaryOp::LessEq
+                        | common_defs::BinaryOp::GreaterEq => Some(OperandClass::NumericOrString),
+                        _ => None,
+                    };
+                    if let Some(class) = class
+                        && !operand_allowed(&lhs.get_ty(), class)
+                    {
+                        push_operand_error(diagnostics, op.symbol(), &lhs.get_ty());
+                    }
+                }
                 tast::Expr::EBinary {
                     op,
                     lhs,
@@ -1203,4 +1227,39 @@ impl Typer {
             }
         }
     }
+}
+
+#[derive(Clone, Copy)]
+enum OperandClass {
+    Numeric,
+    NumericOrString,
+}
+
+// The builtin arithmetic and ordering operators are defined on numbers (`+` and the
+// orderings also on strings). Types still unknown here (type parameters, unresolved
+// variables) are left to the checks that report them.
+fn operand_allowed(ty: &tast::Ty, class: OperandClass) -> bool {
+    match ty {
+        tast::Ty::TInt8
+        | tast::Ty::TInt16
+        | tast::Ty::TInt32
+        | tast::Ty::TInt64
+        | tast::Ty::TUint8
+        | tast::Ty::TUint16
+        | tast::Ty::TUint32
+        | tast::Ty::TUint64
+        | tast::Ty::TFloat32
+        | tast::Ty::TFloat64 => true,
+        tast::Ty::TString => matches!(class, OperandClass::NumericOrString),
+        tast::Ty::TVar(_) | tast::Ty::TParam { .. } => true,
+        _ => false,
+    }
+}
+
+fn push_operand_error(diagnostics: &mut Diagnostics, op: &str, ty: &tast::Ty) {
+    diagnostics.push(Diagnostic::new(
+        Stage::Typer,
+        Severity::Error,
+        format!("Operator {} is not defined for operands of type {:?}", op, ty),
+    ));
 }
